@@ -1,2 +1,5 @@
 pub mod fx;
 pub mod signal;
+pub mod ast;
+pub mod exec;
+pub mod gen;
